@@ -1,6 +1,7 @@
 (* C17 — OCR2 (v2) report coordinator: lockout until the right log, convergent across orderings.
    Property theorems only; proofs live in Proofs/V2CoordProofs.v, the model in Model/V2Coord.v. *)
 From Verif Require Import Base.Util Model.V2Coord Proofs.V2CoordProofs Model.V2CoordPlugin Proofs.V2CoordPluginProofs.
+From Verif Require Import Base.GenIR Gen.GeneratedTr Proofs.GenTrV2Coord.
 Open Scope N_scope.
 
 (* shouldUpdate is the strict part of the total order [ble] on (check block, transmit block)
@@ -237,6 +238,77 @@ Proof.
   { simpl. intros k' [H|[H|[H|[H|[H|[H|[H|[H|[H|[]]]]]]]]]] E; inversion H; subst; simpl in *; try lia; try discriminate. }
   vm_compute. repeat split; reflexivity.
 Qed.
+
+Section GenTie.
+Local Open Scope Z_scope.
+(* ---- Tie to the source by translation (Gen/GeneratedTr.v, regenerated from /repo on every run by gen/translate.go) ----
+   g_* are the decision terms translated from the CURRENT Go code: every condition, the branch structure and which
+   white-listed effect statement runs on which path.  The theorems below state that the model's functions - about
+   which every theorem above speaks - are the interpretation of these terms. *)
+(* idBlocker.shouldUpdate: the model's should_update is the interpretation of the generated term (newer check block wins, older loses, the indefinite transmit key is lowest) *)
+Theorem C17_gen_shouldUpdate_decisions :
+  forall b v : blk,
+  should_update b v =
+  match g_v2_shouldUpdate (fst b <? fst v)%N (fst v <? fst b)%N false false (snd b =? indef)%N (snd v =? indef)%N (snd b <? snd v)%N with
+  | (_, RetO 2) => true
+  | (_, RetO 3) => false
+  | (_, RetB x) => x
+  | _ => false
+  end.
+Proof. exact gen_v2_shouldUpdate. Qed.
+Print Assumptions C17_gen_shouldUpdate_decisions.
+
+(* idBlocker.shouldUpdate: a failing comparison never updates *)
+Theorem C17_gen_shouldUpdate_errors :
+  forall a b (c d e : bool),
+  g_v2_shouldUpdate a b true false c d e = ([], RetO 1) /\
+  g_v2_shouldUpdate false b false true c d e = ([], RetO 1).
+Proof. exact gen_v2_shouldUpdate_errors. Qed.
+Print Assumptions C17_gen_shouldUpdate_errors.
+
+(* reportCoordinator.updateIdBlock: the model's update_id is the interpretation *)
+Theorem C17_gen_updateIdBlock_decisions :
+  forall c now l id v,
+  let cur := cget N.eqb now l id in
+  update_id c now l id v =
+  match g_v2_updateIdBlock (oSome cur) false (match cur with Some b => should_update b v | None => false end) with
+  | ([1], Fall) => cset l id v (now + window c)
+  | _ => l
+  end.
+Proof. exact gen_v2_updateIdBlock. Qed.
+Print Assumptions C17_gen_updateIdBlock_decisions.
+
+(* reportCoordinator.Accept: the model's accept is the interpretation (a key that is already active changes nothing) *)
+Theorem C17_gen_Accept_decisions :
+  forall c now s k,
+  accept c now s k =
+  match g_v2_Accept false (oSome (cget key_eqb now (act s) k)) with
+  | ([1; 2], RetO 2) => mkSt (update_id c now (ids s) (snd k) (fst k, indef)) (cset (act s) k false (now + hour))
+  | _ => s
+  end.
+Proof. exact gen_v2_Accept. Qed.
+Print Assumptions C17_gen_Accept_decisions.
+
+(* reportCoordinator.IsPending: pending exactly when a blocker is stored and the key's block is not after its transmit block *)
+Theorem C17_gen_IsPending_decisions :
+  forall now s k,
+  let cur := cget N.eqb now (ids s) (snd k) in
+  g_v2_IsPending false (oSome cur) false (match cur with Some b => (snd b <? fst k)%N | None => false end)
+  = ([], if oSome cur then RetO 3 else RetO 4)
+  /\ is_pending now s k = match cur with Some b => negb (snd b <? fst k)%N | None => false end.
+Proof. exact gen_v2_IsPending. Qed.
+Print Assumptions C17_gen_IsPending_decisions.
+
+(* reportCoordinator.IsTransmissionConfirmed: unknown keys count as confirmed *)
+Theorem C17_gen_IsTransmissionConfirmed_decisions :
+  forall now s k,
+  let cur := cget key_eqb now (act s) k in
+  g_v2_IsTransmissionConfirmed (oSome cur) (match cur with Some cf => cf | None => false end)
+  = ([], RetB (is_confirmed now s k)).
+Proof. exact gen_v2_IsTransmissionConfirmed. Qed.
+Print Assumptions C17_gen_IsTransmissionConfirmed_decisions.
+
+End GenTie.
 
 (* Non-vacuity of the expiry clause: window 5 s, accept at 0.5 s; at exactly s + window the id is
    still pending, one nanosecond later it is not ([now > expires] is strict). *)
